@@ -96,6 +96,15 @@ fn arm_cpu_deadline() {
     }
 }
 
+/// sleeping and never-ending loops are properties of the loop mechanism, not of the command being looped: igs|&Z -> igs|&
+pub fn mechanism_family(fam: &str) -> &str {
+    if fam.starts_with("igs|&") {
+        "igs|&"
+    } else {
+        fam
+    }
+}
+
 /// (state char, utime+stime ticks) of a process
 fn proc_state_ticks(pid: i32) -> Option<(char, u64)> {
     let s = std::fs::read_to_string(format!("/proc/{pid}/stat")).ok()?;
@@ -197,8 +206,7 @@ fn isolate_once(family_of: &dyn Fn(u16) -> String, body: &dyn Fn(&Reporter) -> V
     unsafe { libc::close(fds[1]) };
     let mut data: Vec<u8> = Vec::new();
     let mut buf = [0u8; 65536];
-    let mut last_ticks = u64::MAX;
-    let mut idle = 0u32;
+    let mut samples: std::collections::VecDeque<(char, u64)> = std::collections::VecDeque::new();
     let mut asleep = false;
     let t0 = Instant::now();
     loop {
@@ -211,25 +219,22 @@ fn isolate_once(family_of: &dyn Fn(u16) -> String, body: &dyn Fn(&Reporter) -> V
             break;
         }
         if r == 0 {
-            // nothing for 0.7 s: asleep (state S, no CPU consumed) or busy / waiting for a CPU?
-            match proc_state_ticks(pid) {
-                Some((st, ticks)) => {
-                    if st == 'S' && ticks == last_ticks {
-                        idle += 1;
-                    } else {
-                        idle = 0;
-                    }
-                    last_ticks = ticks;
+            // nothing for 0.7 s: asleep (state S, next to no CPU consumed) or busy / waiting for a CPU?
+            if let Some(st) = proc_state_ticks(pid) {
+                samples.push_back(st);
+                if samples.len() > 6 {
+                    samples.pop_front();
                 }
-                None => idle = 0,
             }
-            if idle >= 4 || t0.elapsed() > Duration::from_secs(100) {
-                asleep = idle >= 4;
+            let sleeping = samples.len() == 6 && samples.iter().filter(|s| s.0 == 'S').count() >= 5 && samples.back().unwrap().1 - samples.front().unwrap().1 <= 5;
+            if sleeping || t0.elapsed() > Duration::from_secs(100) {
+                asleep = sleeping;
                 unsafe { libc::kill(pid, libc::SIGKILL) };
                 break;
             }
             continue;
         }
+        samples.clear();
         let n = unsafe { libc::read(fds[0], buf.as_mut_ptr() as *mut libc::c_void, buf.len()) };
         if n <= 0 {
             break;
@@ -269,8 +274,9 @@ fn isolate_once(family_of: &dyn Fn(u16) -> String, body: &dyn Fn(&Reporter) -> V
     }
     let fam = family_of(at);
     let died = |v: Verdict| (v, Some(at));
+    let sfam = mechanism_family(&fam);
     if asleep {
-        return died(Verdict::fail(format!("stall.sleep|{fam}"), "the emulation went to sleep inside print_char/get_next_action and made no progress for 2.8 s (killed)".to_string()));
+        return died(Verdict::fail(format!("stall.sleep|{sfam}"), "the emulation went to sleep inside print_char/get_next_action and used next to no CPU for 4 s (killed)".to_string()));
     }
     if libc::WIFSIGNALED(status) {
         let n = signal_name(libc::WTERMSIG(status));
@@ -428,7 +434,7 @@ pub fn drive(infos: &[SegInfo], removed: &[u16], known: &Known, label: &str, run
                     timing.push((i, Fail { key: format!("work.cpu|{}", infos[i].fam), msg: format!("one command of segment {i} ({} bytes) took {} ms CPU (limit {} ms)", infos[i].len, cpu / 1000, lim / 1000) }));
                 }
                 if blk > BLOCKED_LIMIT_US {
-                    timing.push((i, Fail { key: format!("stall.sleep|{}", infos[i].fam), msg: format!("segment {i} spent {} ms neither running nor waiting for a CPU (sleeping inside print_char/get_next_action), in each of 3 runs", blk / 1000) }));
+                    timing.push((i, Fail { key: format!("stall.sleep|{}", mechanism_family(&infos[i].fam)), msg: format!("segment {i} spent {} ms neither running nor waiting for a CPU (sleeping inside print_char/get_next_action), in each of 3 runs", blk / 1000) }));
                 }
             }
             r.fails.extend(timing);
